@@ -322,7 +322,7 @@ class Scheduler(object):
             self.done_evt.set()
 
     # ------------------------------------------------------------------ running
-    def run(self, watchdog=20.0):
+    def run(self, watchdog=120.0):
         """Start: pick the first thread (a choice if several), wait for the end."""
         vthreading.RT.sched = self
         try:
